@@ -152,7 +152,7 @@ def read(text):
         raise ReaderError("not JSON: %s" % e)
     if not isinstance(top, dict):
         raise ReaderError("top level is not an object")
-    problems, notes = [], {"ambiguous_bundle_ids": [], "membership_order": {}}
+    problems, notes = [], {"ambiguous_bundle_ids": [], "membership_order": {}, "bundle_ids_outside_document_scope": []}
     dscope = Scope(top.get("prefix"))
     snap = {None: read_container(top, dscope, problems, notes["membership_order"].setdefault(None, {}))}
     bundles = top.get("bundle", {})
@@ -177,6 +177,9 @@ def read(text):
             raise ReaderError("bundle identifier %r cannot be resolved" % bid)
         if in_b is not None and in_d is not None and in_b != in_d:
             notes["ambiguous_bundle_ids"].append([bid, in_b, in_d])
+        if in_d is None:
+            # the key sits in the document-level "bundle" object: a reader written from the specification resolves it there
+            notes["bundle_ids_outside_document_scope"].append([bid, in_b])
         uri = in_b or in_d
         if uri in snap:
             raise ReaderError("two bundles denote <%s>" % uri)
